@@ -318,7 +318,7 @@ def feval(t, env, eng, depth=0):
     return None
 
 
-def explore_leaves(crate, fn, opaque=(), args=None, max_tests=7, frames=None, models=None):
+def explore_leaves(crate, fn, opaque=(), args=None, max_tests=7, frames=None, models=None, subst0=None):
     """Every way through the non-constant two-way tests of `fn` (comparisons, boolean places, Option /
     two-variant discriminants), each forced in turn with Engine.subst.  Returns
     [(forced: {term: const}, engine, result)], or None when a test is not two-way / too many tests."""
@@ -343,10 +343,10 @@ def explore_leaves(crate, fn, opaque=(), args=None, max_tests=7, frames=None, mo
         if nxt is None:
             leaves.append((dict(sub), e, r)); return
         k = kind(nxt)
-        if k is None or depth >= max_tests:
+        if k is None or depth >= max_tests + len(subst0 or {}):
             state["ok"] = False; return
         for v in (0, 1):
             s2 = dict(sub); s2[nxt] = ('c', 'bool' if k == 'bool' else 'isize', v)
             go(s2, depth + 1)
-    go({}, 0)
+    go(dict(subst0 or {}), 0)
     return leaves if state["ok"] else None
